@@ -27,12 +27,9 @@ Holds(c) == CASE c = "WindowRespected" -> WindowRespected [] c = "PacketBound" -
               [] c = "RaiseIfShut" -> RaiseIfShut [] c = "SendallOutcome" -> SendallOutcome
               [] c = "SendallNoSpin" -> SendallNoSpin [] c = "NoHangInWindowWait" -> NoHangInWindowWait
 AtRestOnly == {"Conservation", "NoStarvation", "NoHangInWindowWait"}
-\* reported, not demanded: a sender parked when another thread shut the channel down for writing stays parked until the
-\* window moves (nothing notifies out_buffer_cv in _send_eof)
-ParkedAfterShutdown == \E t \in Threads : pc[t] = "send_wait" /\ eofSent[Side(t)] /\ ~closed[Side(t)] /\ outwin[Side(t)] = 0
 Failed(cs) == {"P_" \o c : c \in {x \in cs : ~Holds(x)}}
 
-SpecOp(o) == IF o = "send_ext" THEN "send_err" ELSE IF o = "recv_loop" THEN "recv"
+SpecOp(o) == IF o = "send_ext" THEN "send_err" ELSE IF o = "sendall_ext" THEN "sendall_err" ELSE IF o = "recv_loop" THEN "recv"
              ELSE IF o = "recv_err_loop" THEN "recv_err" ELSE o
 Known(t) == t \in Threads
 
@@ -109,7 +106,6 @@ Final ==          \* the schedule has ended: take the channel attributes from th
   /\ spins' = [t \in Threads |-> IF \E i \in 1..Len(F.spinning) : F.spinning[i] = t THEN SpinCap ELSE spins[t]]
   /\ UNCHANGED <<tmo, op, left, pend, held, calls, ctx, last, tr, robs>> /\ NoEmit
   /\ bad' = Failed(IF F.budget THEN Clauses \ AtRestOnly ELSE Clauses)'
-            \cup (IF ParkedAfterShutdown' /\ "NoHangInWindowWait" \in Clauses THEN {"C_parked_after_shutdown_write"} ELSE {})
 
 TNext == Event \/ Final
 TSpec == TInit /\ [][TNext]_tvars
